@@ -8,6 +8,12 @@
   oas (skmatter/utils/_sparsekde.py): (1 - phi) cov + phi (tr cov / D) I with the documented phi; a symmetric input gives a symmetric output.
   SparseKDE._bandwidth_estimation_from_localization: h = (4 / n_local / (dim + 2))^(2 / (dim + 4)) * oas(local covariance), the effective dimension taken from the UNSHRUNK local
       covariance, the local covariance measured on the grid with the local weights; the bandwidth matrix is symmetric (chain: _covariance symmetric -> oas symmetric -> h symmetric).
+  SparseKDE._computes_kernel_density_estimation (what score_samples returns), for every number of queries, grid points, descriptors and dimensions: the nested loops are cut
+      with invariants "exp(prob[i]) = TOT(i, j)" where TOT(i, j+1) = TOT(i, j) + TERM(i, j) and TERM(i, j) is the documented mixture term of grid point j at query i:
+      the grid-level Gaussian w_j exp(-(nk_j + d2_j(x_i, g_j)) / 2) when the squared Mahalanobis distance of the query to the grid point under that point's own bandwidth
+      exceeds the cut-off, and otherwise the sum over the descriptors assigned to that grid point which differ from the query in some coordinate of
+      weight * exp(-(nk_j + d2_j(descriptor, x_i)) / 2); the result is log(TOT(i, g)) - log(total grid weight).  pairwise_mahalanobis_distances is a modular callee (its formula is
+      C15's subject): MD2(precision, row, row), called with squared=True and the configured cell; logsumexp: expn(result) = sum of expn of the entries (expn(-inf) = 0).
   SparseKDE._bandwidth_inv / _normkernels (cached properties): entry j is inv(bandwidth_[j]) / d*log(2 pi) + log|det bandwidth_[j]|, computed once after a fit and
       served from the cache afterwards; not available before fit.
 
@@ -16,6 +22,7 @@ unit).  exp / log / inv / slogdet are uninterpreted functions of their argument.
 from pyvc.api import *
 from pyvc import skstubs
 from pyvc.engine import ExtNS, ExtClass, Opaque
+from pyvc.api import INF
 
 SK = 'skmatter.neighbors._sparsekde'
 KD = SK + '.SparseKDE'
@@ -60,6 +67,9 @@ def extend_ext(ext):
     np_.array = np_array_of_stack(np_.array)
     ext['comp_sym'] = comp_sym
     ext['c17b'] = True
+    ext['mat_getitem'] = prov_getitem
+    ext['names']['scipy.special.logsumexp'] = lse_stub
+    np_.concatenate = np_concatenate_(np_.concatenate); np_.any = np_any_(np_.any); np_.diagonal = np_diagonal
     ext['arr_attrs'] = dict(ext['arr_attrs'])
     prev_reshape = ext['arr_attrs']['reshape']
     def reshape_attr(I, a):
@@ -67,6 +77,8 @@ def extend_ext(ext):
             A = I2.A(a); shp = tuple(shape[0]) if len(shape) == 1 and isinstance(shape[0], (tuple, list)) else tuple(shape)
             if A.ndim == 1 and len(shp) == 2 and conc(shp[0]) == -1 and conc(shp[1]) == 1:
                 return I2.new_arr(ArrVal((A.shape[0], 1), lambda x, y: A.elem(tz(x)), A.sort))
+            if A.ndim == 3 and len(shp) == 1 and conc(shp[0]) == -1 and conc(A.shape[0]) == 1 and conc(A.shape[2]) == 1:       # (1, m, 1) -> (m,)
+                return I2.new_arr(ArrVal((A.shape[1],), lambda t: A.elem(IntVal(0), tz(t), IntVal(0)), A.sort))
             return prev_reshape(I2, a)(I2, *shape, **kw)
         return f
     ext['arr_attrs']['reshape'] = reshape_attr
@@ -302,6 +314,174 @@ def u_bandwidth():
         I.ob('post[C17]:returned-covariance-is-symmetric', C.elem(x, y) == C.elem(y, x), kind='post')
     return Unit('SparseKDE._bandwidth_estimation_from_localization', body, funcs={SK + '._covariance': cov_contract(), UT + '.effdim': effdim_contract()}, functions=[q, UT + '.oas'])
 
-UNITS = [lambda: u_local_population(False), lambda: u_local_population(True), lambda: u_oas(), lambda: u_covariance(), lambda: u_bandwidth()] + [(lambda w, s_: (lambda: u_cached(w, s_)))(w, s_) for w in ('_bandwidth_inv', '_normkernels') for s_ in ('unfitted', 'first', 'cached')]
+# ------------------------------------------------------------------ the mixture loop: SparseKDE._computes_kernel_density_estimation
+PW = 'skmatter.metrics._pairwise.pairwise_mahalanobis_distances'
+MD2 = z3.Function('MD2', IntS, IntS, IntS, IntS, IntS, RealS)    # squared (periodic) Mahalanobis distance with precision k between row (array id, row) and row (array id, row)
+EXPN = z3.Function('expn', RealS, RealS)                          # exp, extended by expn(-inf) = 0
+TOT = z3.Function('TOT', IntS, IntS, RealS)                       # TOT(i, j): the mixture terms of query i from the grid points < j
+TERM = z3.Function('TERM', IntS, IntS, RealS)
+NEARF = z3.Function('NEAR', IntS, IntS, RealS)
+NLEN = z3.Function('NLEN', IntS, IntS); NBE = z3.Function('NBE', IntS, IntS, IntS)      # member list of grid cell j: length, t-th member (a descriptor index)
+s_ = Int('s')
+
+class Members:
+    """self._grid_neighbour: per grid point the integer array of the descriptors assigned to it"""
+    def __init__(self, n): self.n = n; self.cache = {}
+    def _pyvc_getitem(self, I, b, ix):
+        j = tz(ix); key = z3.simplify(j).sexpr()
+        if key not in self.cache:
+            m = NLEN(j)
+            I.assume(And(m >= 0, ForAll([t_], Implies(And(0 <= t_, t_ < m), And(0 <= NBE(j, t_), NBE(j, t_) < self.n)), patterns=[NBE(j, t_)])))
+            self.cache[key] = I.new_arr(ArrVal((conc(m),), (lambda j: lambda t: NBE(j, tz(t)))(j), IntS, ('members', j)))
+        return self.cache[key]
+
+def prov_getitem(I, b, ix):
+    """row / precision provenance of slices of the base arrays (which descriptor / query / grid point / precision a slice is)"""
+    pv = I.cur.get('prov') if isinstance(getattr(I, 'cur', None), dict) else None
+    if pv is None or I.cur.get('in_prov') or not isinstance(b, ArrRef) or b.id not in pv: return None
+    kind, base, fn = pv[b.id]; A = I.A(b)
+    if kind == 'row' and isinstance(ix, tuple) and len(ix) == 2 and ix[0] is None and ix[1] is Ellipsis:
+        r = I.new_arr(ArrVal((1, A.shape[0]), lambda x, c: A.elem(tz(c)), A.sort)); pv[r.id] = ('rows', base, lambda a: fn); return r
+    if any(x is Ellipsis for x in (ix if isinstance(ix, tuple) else (ix,))): return None
+    I.cur['in_prov'] = True
+    try: r = npstubs.arr_getitem(I, b, ix)
+    finally: I.cur['in_prov'] = False
+    if not isinstance(r, ArrRef): return r
+    scalar = not isinstance(ix, (tuple, slice, ArrRef, list)) and ix is not None
+    if kind == 'rows' and A.ndim == 2 and scalar: pv[r.id] = ('row', base, fn(tz(ix)))
+    elif kind == 'rows' and A.ndim == 2 and isinstance(ix, ArrRef) and I.A(ix).ndim == 1 and I.A(ix).sort == IntS:
+        J = I.A(ix); pv[r.id] = ('rows', base, (lambda J, fn: lambda a: fn(J.elem(tz(a))))(J, fn))
+    elif kind == 'precs' and A.ndim == 3 and scalar: pv[r.id] = ('prec', base, fn(tz(ix)))
+    return r
+
+def pmd_contract():
+    def make_result(I, F):
+        pv = I.cur['prov']; X, Y, P = F['X'], F['Y'], F['cov_inv']
+        ok = all(isinstance(a, ArrRef) and a.id in pv for a in (X, Y, P)) and pv[X.id][0] == 'rows' and pv[Y.id][0] == 'rows' and pv[P.id][0] in ('precs', 'prec')
+        ok = ok and F.get('squared') is True and (F.get('cell_length') is I.cur['cell'] or (isinstance(F.get('cell_length'), ArrRef) and isinstance(I.cur['cell'], ArrRef) and F['cell_length'].id == I.cur['cell'].id))
+        nx, ny = I.A(X).shape[0], I.A(Y).shape[0]
+        I.cur.setdefault('pmd_calls', []).append(ok)
+        if not ok: return I.fresh_arr('mahalanobis', (I.fresh('ncov', IntS), nx, ny))         # not the documented call: nothing is known about the result
+        xb, xf = pv[X.id][1], pv[X.id][2]; yb, yf = pv[Y.id][1], pv[Y.id][2]
+        if pv[P.id][0] == 'precs': ncov = I.A(P).shape[0]; pf = pv[P.id][2]
+        else: ncov = 1; pf = (lambda jj: lambda k: jj)(pv[P.id][2])
+        return I.new_arr(ArrVal((ncov, nx, ny), lambda k, a, b: MD2(pf(tz(k)), IntVal(xb), xf(tz(a)), IntVal(yb), yf(tz(b))), RealS))
+    return FuncContract(make_result=make_result)
+
+def prop_contract(name):
+    def make_result(I, F): return I.cur[name]
+    return FuncContract(make_result=make_result)
+
+def lse_stub(I, a, **kw):
+    """scipy.special.logsumexp: the logarithm of the sum of the exponentials (expn(-inf) = 0)"""
+    npstubs.used('scipy.special.logsumexp (expn(result) = sum of expn of the entries)')
+    r = I.fresh('lse', RealS)
+    if isinstance(a, (list, tuple)) and len(a) == 2 and not any(isinstance(x, ArrRef) for x in a):
+        I.assume(EXPN(r) == EXPN(to_real(tz(a[0]))) + EXPN(to_real(tz(a[1])))); return r
+    if isinstance(a, ArrRef) and I.A(a).tag and I.A(a).tag[0] == 'lseconcat':
+        _, p0, arr = I.A(a).tag; A = I.A(arr)
+        I.assume(EXPN(r) == EXPN(to_real(tz(p0))) + SUMARR(z3.Lambda([s_], EXPN(to_real(A.elem(s_)))), tz(A.shape[0]))); return r
+    raise Unsupported("logsumexp form")
+
+def np_concatenate_(prev):
+    def f(I, seq, axis=0, **kw):
+        if isinstance(seq, (list, tuple)) and len(seq) == 2 and isinstance(seq[0], (list, tuple)) and len(seq[0]) == 1 and not isinstance(seq[0][0], ArrRef) and isinstance(seq[1], ArrRef) and I.A(seq[1]).ndim == 1:
+            B = I.A(seq[1]); p0 = to_real(tz(seq[0][0]))
+            return I.new_arr(ArrVal((conc(z3.simplify(tz(B.shape[0]) + 1)),), lambda t: If(tz(t) == 0, p0, to_real(B.elem(tz(t) - 1))), RealS, ('lseconcat', p0, seq[1])))
+        return prev(I, seq, axis=axis, **kw)
+    return f
+
+def np_any_(prev):
+    def f(I, a, axis=None, **kw):
+        A = I.A(a)
+        if A.ndim == 2 and axis == 1 and A.sort == BoolS:
+            d = tz(A.shape[1])
+            return I.new_arr(ArrVal((A.shape[0],), lambda t: Exists([c_], And(0 <= c_, c_ < d, A.elem(tz(t), c_))), BoolS))
+        return prev(I, a, axis=axis, **kw)
+    return f
+
+def np_diagonal(I, a, **kw):
+    A = I.A(a)
+    if A.ndim != 2 or kw: raise Unsupported("diagonal form")
+    n = conc(z3.simplify(If(tz(A.shape[0]) <= tz(A.shape[1]), tz(A.shape[0]), tz(A.shape[1]))))
+    return I.new_arr(ArrVal((n,), lambda t: A.elem(tz(t), tz(t)), A.sort))
+
+def u_mixture(with_cell):
+    q = KD + '._computes_kernel_density_estimation'
+    def spec_terms(I, i, j):
+        c = I.cur; D, Xq, w, sw, NK, KC = c['D'], c['Xq'], c['w'], c['sw'], c['NK'], c['KC']
+        md_far = MD2(j, IntVal(c['Xid']), i, IntVal(c['Gid']), j)
+        far = EXPN(RealVal('-1/2') * (NK(j) + md_far) + LOG(sw(j)))
+        mask = lambda t: Exists([c_], And(0 <= c_, c_ < c['d'], D(NBE(j, t), c_) != Xq(i, c_)))
+        hh = lambda t: EXPN(RealVal('-1/2') * (NK(j) + MD2(j, IntVal(c['Did']), NBE(j, t), IntVal(c['Xid']), i)) + LOG(w(NBE(j, t))))
+        lam = z3.Lambda([t_], If(mask(t_), hh(t_), RealVal(0)))
+        return md_far, far, mask, hh, lam
+    def inv_outer(I, F, i, gh):
+        c = I.cur; P = I.A(F['prob']); a = Int('a!o')
+        return [('[C17]one-log-density-per-query', tz(P.shape[0]) == c['nq']),
+                ('[C17]finished-queries-hold-the-log-of-their-mixture-terms', ForAll([a], Implies(And(0 <= a, a < i), EXPN(P.elem(a)) == TOT(a, c['g'])), patterns=[P.elem(a)])),
+                ('[C17]queries-not-yet-visited-are-minus-infinity', ForAll([a], Implies(And(i <= a, a < c['nq']), P.elem(a) == -INF), patterns=[P.elem(a)]))]
+    def inv_inner(I, F, j, gh):
+        c = I.cur; P = I.A(F['prob']); a = Int('a!o'); i = tz(F['i'])
+        return [('[C17]one-log-density-per-query', tz(P.shape[0]) == c['nq']),
+                ('[C17]finished-queries-hold-the-log-of-their-mixture-terms', ForAll([a], Implies(And(0 <= a, a < i), EXPN(P.elem(a)) == TOT(a, c['g'])), patterns=[P.elem(a)])),
+                ('[C17]queries-not-yet-visited-are-minus-infinity', ForAll([a], Implies(And(i < a, a < c['nq']), P.elem(a) == -INF), patterns=[P.elem(a)])),
+                ('[C17]current-query-holds-the-log-of-the-terms-of-the-grid-points-visited', EXPN(P.elem(i)) == TOT(i, j))]
+    def hints_inner(I, Fpre, F, j, gpre, gpost):
+        c = I.cur; i = tz(F['i']); j = tz(j)
+        md_far, far, mask, hh, lam = spec_terms(I, i, j)
+        n_j = NLEN(j)
+        # definitions of the specification, unfolded at this (query, grid point)
+        I.assume(TOT(i, j + 1) == TOT(i, j) + TERM(i, j))
+        I.assume(TERM(i, j) == If(md_far > c['KC'], far, NEARF(i, j)))
+        I.assume(NEARF(i, j) == SUMARR(lam, n_j))
+        out = []
+        nb = F.get('neighbours'); took_near = isinstance(nb, ArrRef) and any(z3.is_expr(g_) and z3.eq(z3.simplify(g_), z3.simplify(Not(md_far > c['KC']))) for g_ in I.st.pc[-40:])
+        if isinstance(nb, ArrRef) and I.A(nb).tag and I.A(nb).tag[0] == 'take' and I.A(I.A(nb).tag[2]).tag and I.A(I.A(nb).tag[2]).tag[0] == 'where':
+            J = I.A(I.A(nb).tag[2]); m1 = tz(J.shape[0]); f = J.elem
+            # law of boolean-mask selection and finite sums (instance): summing h over the selected members (in order) = summing over all members h where the mask holds, 0 elsewhere
+            sel = z3.Lambda([s_], hh(f(s_)))
+            Mk = I.A(I.A(I.A(nb).tag[2]).tag[1])            # the mask the code selected with
+            same_mask = And(tz(Mk.shape[0]) == n_j, ForAll([t_], Implies(And(0 <= t_, t_ < n_j), Mk.elem(t_) == mask(t_))))
+            out.append(('the-members-are-filtered-by-differing-from-the-query-in-some-coordinate', same_mask))
+            I.assume(Implies(same_mask, SUMARR(sel, m1) == SUMARR(lam, n_j)))
+            I.assume(Implies(ForAll([t_], Implies(And(0 <= t_, t_ < n_j), lam[t_] == 0)), SUMARR(lam, n_j) == 0))          # a sum of zeros is zero (instance)
+            lnks = F.get('lnks')
+            if isinstance(lnks, ArrRef) and 'lnks' not in Fpre or (isinstance(lnks, ArrRef) and Fpre.get('lnks') is not lnks):
+                Lk = I.A(lnks); code = z3.Lambda([s_], EXPN(to_real(Lk.elem(s_))))
+                s0 = I.fresh('s0', IntS); I.assume(And(0 <= s0, s0 < m1))
+                out.append(('each-selected-member-contributes-its-descriptor-level-Gaussian', code[s0] == sel[s0]))
+                I.assume(Implies(ForAll([t_], Implies(And(0 <= t_, t_ < m1), code[t_] == sel[t_])), SUMARR(code, m1) == SUMARR(sel, m1)))       # congruence of the finite sum (instance)
+                out.append(('...for-every-selected-member', ForAll([t_], Implies(And(0 <= t_, t_ < m1), code[t_] == sel[t_]))))
+                out.append(('...so-the-sums-agree', SUMARR(code, m1) == SUMARR(lam, n_j)))
+        return out
+    def body(I):
+        n, g, d, nq = I.fresh('n', IntS), I.fresh('g', IntS), I.fresh('d', IntS), I.fresh('nq', IntS); I.assume(And(n >= 1, g >= 1, d >= 1, nq >= 1))
+        D = I.fresh_arr('descriptors', (n, d)); w = I.fresh_arr('weights', (n,)); G = I.fresh_arr('grids', (g, d)); sw = I.fresh_arr('grid_weights', (g,)); Q = I.fresh_arr('queries', (nq, d))
+        BINV = I.fresh_arr('bandwidth_inv', (g, d, d)); NK = I.fresh_arr('normkernels', (g,)); KC = I.fresh('kdecut_squared', RealS)
+        cell = I.fresh_arr('cell', (d,)) if with_cell else None
+        I.cur = dict(prov={D.id: ('rows', 1, lambda a: a), G.id: ('rows', 2, lambda a: a), Q.id: ('rows', 3, lambda a: a), BINV.id: ('precs', 4, lambda k: k)},      # array codes: 1 descriptors, 2 grid, 3 queries
+                     cell=cell, _bandwidth_inv=BINV, _normkernels=NK, kdecut_squared=KC, g=g, nq=nq, d=d, Did=1, Gid=2, Xid=3,
+                     D=I.A(D).elem, Xq=I.A(Q).elem, w=lambda k: to_real(I.A(w).elem(k)), sw=lambda k: to_real(I.A(sw).elem(k)), NK=lambda k: to_real(I.A(NK).elem(k)), KC=KC)
+        I.assume(EXPN(-INF) == 0)                       # expn extends exp by expn(-inf) = 0
+        a0 = Int('a!t'); I.assume(ForAll([a0], TOT(a0, 0) == 0, patterns=[TOT(a0, 0)]))      # empty sum
+        cls = I.repo.get(KD)
+        me = I.new_obj(cls, dict(descriptors=D, weights=w, _grids=G, _sample_weights=sw, _grid_neighbour=Members(n), cell=cell, fitted_=True, verbose=False))
+        r = I.call_func(I.find_method(cls, '_computes_kernel_density_estimation'), [me, Q], {})
+        R = I.A(r)
+        I.ob('post[C17]:one-log-density-per-query', And(BoolVal(R.ndim == 1), tz(R.shape[0]) == nq), kind='post')
+        qi = I.fresh('qi', IntS); I.assume(And(0 <= qi, qi < nq))
+        tot_w = SUMARR(z3.Lambda([k_], to_real(I.A(sw).elem(k_))), g)
+        lg = I.cur.get('last_prob')
+        I.ob('post[C17]:score_samples-is-the-log-of-the-documented-mixture-minus-the-log-of-the-total-grid-weight',
+             Exists([Real('acc')], And(EXPN(Real('acc')) == TOT(qi, g), R.elem(qi) == Real('acc') - LOG(tot_w))), kind='post')
+        I.ob('post[C17]:every-distance-is-a-squared-Mahalanobis-distance-with-the-configured-cell', BoolVal(bool(I.cur.get('pmd_calls')) and all(I.cur['pmd_calls'])), kind='post')
+    funcs = {PW: pmd_contract(), KD + '._bandwidth_inv': prop_contract('_bandwidth_inv'), KD + '._normkernels': prop_contract('_normkernels'), KD + '.kdecut_squared': prop_contract('kdecut_squared')}
+    return Unit(f'SparseKDE._computes_kernel_density_estimation[{"cell" if with_cell else "free"}]', body, funcs=funcs,
+                loops={(q, 0): LoopContract(inv_outer), (q, 1): LoopContract(inv_inner, hints=hints_inner)}, functions=[q])
+
+UNITS = [lambda: u_mixture(False), lambda: u_mixture(True), lambda: u_local_population(False), lambda: u_local_population(True), lambda: u_oas(), lambda: u_covariance(), lambda: u_bandwidth()] + [(lambda w, s_: (lambda: u_cached(w, s_)))(w, s_) for w in ('_bandwidth_inv', '_normkernels') for s_ in ('unfitted', 'first', 'cached')]
 RT = False
-TRUSTED = ["finite-sum functionals SUMD / SUMARR, exp, log, matrix inverse and log|det| uninterpreted functions of their arguments: equal arguments give equal values (congruence on identical lambda terms)"]
+TRUSTED = ["finite-sum functionals SUMD / SUMARR, exp, log, matrix inverse and log|det| uninterpreted functions of their arguments: equal arguments give equal values (congruence on identical lambda terms)",
+           "mixture loop: scipy.special.logsumexp as 'expn(result) = sum of expn(entries)' with expn(-inf) = 0; law of boolean-mask selection and finite sums (summing h over the members selected by a mask, in order, = summing over all members h where the mask holds and 0 elsewhere; assumed as an instance, conditional on the proved fact that the code's mask is the documented one); "
+           "pairwise_mahalanobis_distances as the modular callee MD2(precision index, row, row) when called with squared=True and the configured cell (its formula is proved under C15); the per-grid-point member lists as an uninterpreted family of index arrays (NLEN, NBE) with entries in range"]
